@@ -797,6 +797,27 @@ def m_int_partial_cmp(mach, name, args):
             (z3.UGT(a, b), "ret", Adt("Option", [Adt("Ordering", [], "Greater")], "Some"))]
 
 
+def m_into(mach, name, args):
+    """the blanket `impl<T, U: From<T>> Into<U> for T`: `<T as Into<U>>::into(x)` is `<U as From<T>>::from(x)`"""
+    m = re.match(r"^<(.+) as (?:std::convert::)?Into<(.+)>>::into$", name)
+    if not m:
+        raise NotMine()
+    for pat, fn in mach.models.items():
+        if fn is not m_into and re.search(pat, name):
+            raise NotMine()                # a check-specific model of this very call takes precedence
+    if m.group(1) == m.group(2):
+        return [(T(), "ret", args[0])]     # reflexive `impl<T> From<T> for T`
+    try:
+        f = mach.resolve("<%s as From<%s>>::from" % (m.group(2), m.group(1)), args)
+    except Unsupported:
+        # no such body in this crate: leave it to a more specific model, if any
+        for pat, fn in mach.models.items():
+            if fn is not m_into and re.search(pat, "<%s as From<%s>>::from" % (m.group(2), m.group(1))):
+                return fn(mach, "<%s as From<%s>>::from" % (m.group(2), m.group(1)), args)
+        raise NotMine()
+    return mach.exec_fn(f, args)
+
+
 def m_int_cmp(mach, name, args):
     a, b = [x.val if isinstance(x, Ref) else x for x in args]
     if not (z3.is_bv(a) and z3.is_bv(b)):
@@ -989,6 +1010,7 @@ CORE_MODELS = {
     r"^Option::<.*>::unwrap$": m_expect,
     r"^Result::<.*>::unwrap_or$": m_unwrap_or,
     r"^<(u8|u16|u32|u64|usize) as (std::cmp::)?Ord>::cmp$": m_int_cmp,
+    r"^<.+ as (std::convert::)?Into<.+>>::into$": m_into,
     r"^(std::)?cmp::max::<\w+>$": m_max_min("max"),
     r"^(std::)?cmp::min::<\w+>$": m_max_min("min"),
     r"^<\w+ as (std::cmp::)?PartialOrd>::partial_cmp$": m_int_partial_cmp,
